@@ -1,6 +1,6 @@
 CONSTANTS
   MaxRetriesSet = {3}
-  RetryLimitSet = {0, 2}
+  RetryLimitSet = {2}
   MaxAttempt = 4
   MaxNe = 2
   MaxSne = 1
